@@ -95,6 +95,7 @@ type Unit struct {
 	allocN map[string]int // alloc constant -> serial
 	allocSerial int
 	freshOnly map[string]bool
+	fixedIdx map[string][]string
 	refines *Contract
 	refSig *types.Signature
 	refNames map[string]*Val
@@ -329,6 +330,15 @@ func (u *Unit) scalar(st *State, v *Val) string {
 	case kSlice, kArray:
 		if v.S != "" && v.Arr == "" {
 			return v.S
+		}
+		if v.Len == "0" && v.Nil == "true" && strings.HasPrefix(strings.Trim(v.Arr, "|"), "emptyarr.") {
+			// the nil slice has one canonical box per element sort
+			es := sortOf(elemType(v.T))
+			c := u.d.constant("nilslice!"+es, SInt)
+			u.d.axiom(tEq(app(u.slArr(es), c), v.Arr))
+			u.d.axiom(tEq(app(u.slLen(), c), "0"))
+			u.d.axiom(app(u.slNil(), c))
+			return c
 		}
 		id := u.d.fresh("slbox", SInt)
 		es := sortOf(elemType(v.T))
@@ -601,7 +611,11 @@ func (u *Unit) mapNames(t types.Type) (dom, val, ks, vs string) {
 func (u *Unit) mapDom(st *State, t types.Type, ref string) string {
 	dom, _, ks, _ := u.mapNames(t)
 	h := u.heapGet(st, dom, arrSort(ks, SBool))
-	return app("select", h, ref)
+	if ref == "0" {
+		return fmt.Sprintf("((as const %s) false)", arrSort(ks, SBool))
+	}
+	// the nil map has no keys
+	return tIte(tEq(ref, "0"), fmt.Sprintf("((as const %s) false)", arrSort(ks, SBool)), app("select", h, ref))
 }
 
 func (u *Unit) mapVal(st *State, t types.Type, ref string) string {
